@@ -68,6 +68,9 @@ class Capture:
     def __init__(self, kind, active=True):
         self.kind, self.active = kind, active
         self.begin, self.ev, self.sw, self.end = None, [], [], None
+        self.krylov, self._kcur, self.krylov_calls = [], None, 0      # recorded gmres_restart calls (first KMAX kept)
+
+    KMAX = 60
 
     def __enter__(self):
         from torchtt import _verif
@@ -78,6 +81,16 @@ class Capture:
             elif name == k + "_step": self.ev.append(quantise(f))
             elif name == k + "_sweep": self.sw.append(quantise(f))
             elif name == k + "_end": self.end = f
+            elif name == "gmres_begin":
+                self.krylov_calls += 1
+                self._kcur = dict(f); self._kcur["ev"] = []
+            elif name == "gmres_cycle" and self._kcur is not None:
+                self._kcur["ev"].append(quantise(f))
+            elif name == "gmres_end" and self._kcur is not None:
+                self._kcur["end"] = f
+                if len(self.krylov) < self.KMAX:
+                    self.krylov.append(self._kcur)
+                self._kcur = None
         _verif.install(sink if self.active else None)
         return self
 
@@ -92,6 +105,8 @@ class Capture:
         from .truncrun import L
         t = dict(self.begin)
         dd = len(t.get("M", t.get("S", [])))
+        for kt in self.krylov:
+            kt.update({"kind": "krylov", "routine": "gmres_restart", "cfg": cfg, "result_R": []})
         t.update({"ev": self.ev, "sw": self.sw, "end": self.end, "result_R": result_R, "cfg": cfg,
                   "dm1_L": L(max(dd - 1, 1)), "sqrtd_L": L(math.sqrt(max(dd, 1)))})
         return t
